@@ -2,6 +2,7 @@ package main
 
 import (
 	"fmt"
+	"strings"
 
 	"github.com/zclconf/go-cty/cty"
 	"github.com/zclconf/go-cty/cty/convert"
@@ -59,6 +60,33 @@ func (m *markPlacer) Exit(p cty.Path, v cty.Value) (cty.Value, error) {
 	return v, nil
 }
 
+// markAboveUnknown marks one container that has an unknown value somewhere inside it (the container
+// itself, not the unknown): what the marked container reports about its own known-ness must not change
+func markAboveUnknown(r *rng.R, v cty.Value, mark interface{}) cty.Value {
+	var paths []cty.Path
+	cty.Walk(v, func(p cty.Path, x cty.Value) (bool, error) {
+		if !x.IsKnown() && len(p) > 0 {
+			paths = append(paths, p.Copy())
+		}
+		return true, nil
+	})
+	if len(paths) == 0 {
+		return v
+	}
+	p := paths[r.Intn(len(paths))]
+	at := p[:r.Intn(len(p))]
+	out, err := cty.Transform(v, func(q cty.Path, x cty.Value) (cty.Value, error) {
+		if q.Equals(at) {
+			return x.Mark(mark), nil
+		}
+		return x, nil
+	})
+	if err != nil {
+		return v
+	}
+	return out
+}
+
 func k04k(s string) string { return "K04_k (" + s + ")" }
 
 func deepMarks(v cty.Value) cty.ValueMarks {
@@ -96,6 +124,17 @@ func stripAll(vs []cty.Value) []cty.Value {
 // paired: run marked and stripped, compare outcome and unmarked result, check mark propagation
 func (c *Ctx) paired(what string, args []cty.Value, run func([]cty.Value) (cty.Value, error), topPromised bool, desc map[string]interface{}) {
 	c.Count("oracle_evals")
+	for _, a := range args {
+		// the predicates every caller decides with answer for the value under the marks
+		u, _ := a.UnmarkDeep()
+		var wm, ws, km, ks, nm, ns bool
+		pa, _ := recovered(func() { wm, km, nm = a.IsWhollyKnown(), a.IsKnown(), a.IsNull() })
+		pb, _ := recovered(func() { ws, ks, ns = u.IsWhollyKnown(), u.IsKnown(), u.IsNull() })
+		if pa != pb || wm != ws || km != ks || nm != ns {
+			c.Fail("C04/predicate-changed", fmt.Sprintf("%s: IsWhollyKnown/IsKnown/IsNull of an operand answer %v/%v/%v (panic %v) with marks, %v/%v/%v (panic %v) without", what, wm, km, nm, pa, ws, ks, ns, pb), desc)
+			break
+		}
+	}
 	var rm, rs cty.Value
 	var em, es error
 	pm, _ := recovered(func() { rm, em = run(args) })
@@ -115,7 +154,12 @@ func (c *Ctx) paired(what string, args []cty.Value, run func([]cty.Value) (cty.V
 	}
 	c.wf(rm, what)
 	um, got := rm.UnmarkDeep()
-	if !um.RawEquals(rs) {
+	same := um.RawEquals(rs)
+	if !same && um.Type().Equals(rs.Type()) && hasCapsule(um.Type()) {
+		// capsule values compare by pointer: two runs each allocate their own; compare what is encapsulated
+		same = cq.Show(um) == cq.Show(rs)
+	}
+	if !same {
 		c.Fail("C04/result-changed", fmt.Sprintf("%s: unmarked result of the marked run %s differs from the stripped run %s", what, cq.Show(um), cq.Show(rs)), desc)
 	}
 	all := unionMarks(args...)
@@ -150,15 +194,285 @@ func genC04(c *Ctx, r *rng.R, i int) {
 		c04Corpus(c, i)
 		return
 	}
-	switch r.Intn(10) {
+	switch r.Intn(14) {
 	case 0, 1, 2, 3, 4:
 		c04Ops(c, r)
 	case 5:
 		c04SetVal(c, r)
 	case 6, 7:
 		c04Convert(c, r)
+	case 8, 9:
+		c04History(c, r)
+	case 10, 11:
+		c04Stdlib(c, r)
 	default:
 		c04Functions(c, r)
+	}
+}
+
+// c04History: a short history of operations over a pool of values, some of them marked views of
+// others. Marks are part of an immutable value: after every step each value in the pool still reports
+// exactly the marks (and everything else) it reported when it was made, and a step's result carries
+// only marks its own operands carried when the step began.
+func c04History(c *Ctx, r *rng.R) {
+	cfg := gv.KnownCfg
+	if r.Chance(30) {
+		cfg = gv.DefaultCfg
+		cfg.MarkPct = 0
+	}
+	v := placeMarks(r, gv.Gen(r, collTypes[r.Intn(len(collTypes))], cfg, 2), r.Chance(30))
+	pool := []live{{"v0", v, fingerprint(v)}}
+	var history []string
+	add := func(x cty.Value) string {
+		n := fmt.Sprintf("v%d", len(pool))
+		pool = append(pool, live{n, x, fingerprint(x)})
+		return n
+	}
+	steps := 3 + r.Intn(6)
+	for s := 0; s < steps; s++ {
+		x := pool[r.Intn(len(pool))]
+		y := pool[r.Intn(len(pool))]
+		before := unionMarks(x.v, y.v)
+		var res []cty.Value
+		var what string
+		extra := cty.ValueMarks{}
+		p, _ := recovered(func() {
+			switch r.Intn(9) {
+			case 0:
+				k := 4 + r.Intn(3)
+				extra[k] = struct{}{}
+				what = fmt.Sprintf("%s.Mark(%d)", x.name, k)
+				res = append(res, x.v.Mark(k))
+			case 1:
+				k := 4 + r.Intn(3)
+				extra[k] = struct{}{}
+				extra["w"] = struct{}{}
+				what = fmt.Sprintf("%s.WithMarks({%d,w})", x.name, k)
+				res = append(res, x.v.WithMarks(cty.NewValueMarks(k), cty.NewValueMarks("w")))
+			case 2:
+				what = x.name + ".WithSameMarks(" + y.name + ")"
+				res = append(res, x.v.WithSameMarks(y.v))
+			case 3:
+				what = "members of " + x.name
+				u, _ := x.v.Unmark()
+				ty := u.Type()
+				if !u.IsKnown() || u.IsNull() {
+					return
+				}
+				switch {
+				case ty.IsObjectType():
+					for n := range ty.AttributeTypes() {
+						res = append(res, x.v.GetAttr(n))
+					}
+				case ty.IsListType() || ty.IsTupleType():
+					for i := 0; i < u.LengthInt(); i++ {
+						key := cty.NumberIntVal(int64(i))
+						if r.Bool() {
+							key = key.Mark("key")
+							extra["key"] = struct{}{}
+						}
+						res = append(res, x.v.Index(key))
+					}
+				case ty.IsMapType():
+					for it := u.ElementIterator(); it.Next(); {
+						k, _ := it.Element()
+						if r.Bool() {
+							k = k.Mark("key")
+							extra["key"] = struct{}{}
+						}
+						res = append(res, x.v.Index(k))
+					}
+				case ty.IsSetType():
+					for it := u.ElementIterator(); it.Next(); {
+						_, e := it.Element()
+						res = append(res, e)
+					}
+				}
+			case 4:
+				what = x.name + ".Equals(" + y.name + ")"
+				res = append(res, x.v.Equals(y.v))
+			case 5:
+				what = x.name + ".UnmarkDeepWithPaths.WithPathValueMarks"
+				u, pms := x.v.UnmarkDeepWithPaths()
+				res = append(res, u, u.MarkWithPaths(pms))
+			case 6:
+				what = "convert " + x.name + " to its own type with dynamic members"
+				u, _ := x.v.Unmark()
+				ty := u.Type()
+				var target cty.Type
+				switch {
+				case ty.IsListType():
+					target = cty.Set(ty.ElementType())
+				case ty.IsTupleType() && ty.Length() > 0:
+					target = cty.List(cty.DynamicPseudoType)
+				case ty.IsObjectType():
+					target = cty.Map(cty.DynamicPseudoType)
+				default:
+					target = cty.DynamicPseudoType
+				}
+				o, err := convert.Convert(x.v, target)
+				if err == nil {
+					res = append(res, o)
+				}
+			case 7:
+				what = x.name + " transformed member by member"
+				o, err := cty.Transform(x.v, func(p cty.Path, e cty.Value) (cty.Value, error) {
+					if e.IsMarked() && r.Bool() {
+						extra["t"] = struct{}{}
+						return e.Mark("t"), nil
+					}
+					return e, nil
+				})
+				if err == nil {
+					res = append(res, o)
+				}
+			default:
+				what = "length/isnull/type of " + x.name
+				u, _ := x.v.Unmark()
+				if u.IsKnown() && !u.IsNull() && u.CanIterateElements() {
+					res = append(res, x.v.Length())
+				}
+				res = append(res, cty.BoolVal(x.v.Mark("q").HasMark("q")).WithSameMarks(x.v.Mark("q")), cty.BoolVal(x.v.IsNull()).WithSameMarks(x.v))
+				extra["q"] = struct{}{}
+			}
+		})
+		if what == "" {
+			continue
+		}
+		history = append(history, what)
+		desc := map[string]interface{}{"history": strings.Join(history, "; "), "start": cq.Show(v)}
+		c.Count("oracle_evals")
+		for _, l := range pool {
+			if fp := fingerprint(l.v); fp != l.fp {
+				c.Fail("C04/marks-of-earlier-value-changed", fmt.Sprintf("after %s the value %s reports %s; when made: %s", what, l.name, trunc(fp, 300), trunc(l.fp, 300)), desc)
+				return
+			}
+		}
+		if p {
+			continue
+		}
+		for m := range extra {
+			before[m] = struct{}{}
+		}
+		for _, o := range res {
+			if !subset(deepMarks(o), before) {
+				c.Fail("C04/mark-invented", fmt.Sprintf("%s: result %s carries a mark no operand carried", what, cq.Show(o)), desc)
+				return
+			}
+			if len(pool) < 12 {
+				add(o)
+			}
+		}
+	}
+}
+
+// c04Stdlib: every registered standard-library function on its own hinted arguments, perturbed
+// (nested unknowns, nulls, refinements), with marks placed on and inside the arguments: same outcome
+// and same unmarked result as the call on stripped arguments, nothing invented, and everything inside
+// an argument the function does not handle itself is on the result.
+var selfMarked []int
+
+func c04Stdlib(c *Ctx, r *rng.R) {
+	fn := &stdFns[r.Intn(len(stdFns))]
+	directed := r.Chance(45)
+	if directed {
+		// functions that take marked arguments themselves decide on known-ness with the marks still on
+		if len(selfMarked) == 0 {
+			for k := range stdFns {
+				ps := stdFns[k].F.Params()
+				if vp := stdFns[k].F.VarParam(); vp != nil {
+					ps = append(ps, *vp)
+				}
+				for _, p := range ps {
+					if p.AllowMarked {
+						selfMarked = append(selfMarked, k)
+						break
+					}
+				}
+			}
+		}
+		fn = &stdFns[selfMarked[r.Intn(len(selfMarked))]]
+	}
+	args := safeGen(fn, r)
+	kind := "plain"
+	if r.Chance(60) {
+		args, kind = perturbArgs(r, args)
+	}
+	if len(args) == 0 {
+		return
+	}
+	args = stripAll(args)
+	marked := 0
+	if directed {
+		// an unknown (or null) somewhere inside an argument the function handles itself, marked as a whole
+		// or on the member that holds the unknown
+		ps := fn.F.Params()
+		for k := range args {
+			allow := false
+			if k < len(ps) {
+				allow = ps[k].AllowMarked
+			} else if vp := fn.F.VarParam(); vp != nil {
+				allow = vp.AllowMarked
+			}
+			if allow && r.Chance(70) {
+				recovered(func() {
+					args[k] = gv.Weaken(r, args[k], 30+r.Intn(50), false)
+					kind += "+weakened"
+					if r.Chance(60) {
+						args[k] = args[k].Mark(1 + r.Intn(3))
+						marked++
+					} else {
+						args[k] = markAboveUnknown(r, args[k], 1+r.Intn(3))
+						marked++
+					}
+				})
+			}
+		}
+	}
+	for k := range args {
+		if r.Chance(50) {
+			top := r.Chance(60)
+			if p, _ := recovered(func() {
+				if r.Chance(40) {
+					args[k] = args[k].Mark(1 + r.Intn(3))
+				} else {
+					args[k] = placeMarks(r, args[k], top)
+				}
+			}); !p {
+				marked++
+			}
+		}
+	}
+	if marked == 0 {
+		args[0] = args[0].Mark(1)
+	}
+	desc := map[string]interface{}{"func": fn.Name, "args": showAll(args), "perturbation": kind}
+	c.Count("stdlib_" + fn.Name)
+	c.paired("func "+fn.Name, args, func(as []cty.Value) (cty.Value, error) { return fn.F.Call(as) }, false, desc)
+	var ret cty.Value
+	var err error
+	p, _ := recovered(func() { ret, err = fn.F.Call(args) })
+	if p || err != nil {
+		return
+	}
+	params := fn.F.Params()
+	vp := fn.F.VarParam()
+	want := cty.ValueMarks{}
+	for k, a := range args {
+		allow := false
+		if k < len(params) {
+			allow = params[k].AllowMarked
+		} else if vp != nil {
+			allow = vp.AllowMarked
+		}
+		if !allow {
+			for m := range deepMarks(a) {
+				want[m] = struct{}{}
+			}
+		}
+	}
+	if !subset(want, deepMarks(ret)) {
+		c.Fail("C04/func-mark-lost", fmt.Sprintf("%s: a mark inside an argument the function does not handle itself is missing on the result %s", fn.Name, cq.Show(ret)), desc)
 	}
 }
 
@@ -221,6 +535,10 @@ func c04Ops(c *Ctx, r *rng.R) {
 			args[k] = placeMarks(r, args[k], top)
 		}
 	}
+	if r.Chance(35) {
+		k := r.Intn(len(args))
+		args[k] = markAboveUnknown(r, args[k], 1+r.Intn(3))
+	}
 	ok := true
 	for _, a := range args {
 		if !stringsOKSafe(a) {
@@ -229,6 +547,9 @@ func c04Ops(c *Ctx, r *rng.R) {
 	}
 	desc := map[string]interface{}{"op": op, "args": showAll(args)}
 	if ok {
+		for _, a := range args {
+			c.Add("op/wk", k04k(fmt.Sprintf("K_wk %s %s %s", cq.Val(a), cq.Bool(a.IsWhollyKnown()), cq.Bool(a.HasWhollyKnownType()))), desc, a.ContainsMarked())
+		}
 		ret, p, _ := runOp(op, args)
 		c.Add("op/"+op, k04k(fmt.Sprintf("K_op %s %s %s", op, cq.ValList(args), cq.ResVal(ret, p))), desc, true)
 		for _, a := range args {
@@ -405,4 +726,26 @@ func c04Corpus(c *Ctx, i int) {
 			c.Fail("C04/convert-null-member-mark-lost", "converting an object with a marked null attribute drops the mark: "+cq.Show(ret), desc)
 		}
 	}
+}
+
+func hasCapsule(t cty.Type) bool {
+	switch {
+	case t.IsCapsuleType():
+		return true
+	case t.IsCollectionType():
+		return hasCapsule(t.ElementType())
+	case t.IsObjectType():
+		for _, a := range t.AttributeTypes() {
+			if hasCapsule(a) {
+				return true
+			}
+		}
+	case t.IsTupleType():
+		for _, e := range t.TupleElementTypes() {
+			if hasCapsule(e) {
+				return true
+			}
+		}
+	}
+	return false
 }
